@@ -259,7 +259,14 @@ class Switch(Generic[R], GenerativeFunction[R]):
                 edit_request,
                 Diff.no_change(argdiffs),
             )
-            return tr, w, Diff.unknown_change(rd), bwd_request
+            # `w` is relative to the fresh trace; make it relative to the empty trace so that
+            # the caller only has to subtract the score of the trace being replaced.
+            return (
+                tr,
+                w + new_trace.get_score(),
+                Diff.unknown_change(rd),
+                bwd_request,
+            )
 
         return inner
 
@@ -299,7 +306,7 @@ class Switch(Generic[R], GenerativeFunction[R]):
         retval: R = Diff.tree_primal(retdiff)
 
         if Diff.tree_tangent(idx_diff) == UnknownChange:
-            weight += score - trace.get_score()
+            weight -= trace.get_score()
 
         # TODO: this is totally wrong, fix in future PR.
         bwd_request: Update = rets[0][3]
